@@ -23,7 +23,7 @@ import (
 
 func TestMain(m *testing.M) { kit.Main(m) }
 
-const rule = "a flat list of leaf fields (tags from wire, func, value, prop, prefix, logger, a custom tag, a foreign tag, none; exported or unexported) and a random ordered tree that re-nests the same leaves into anonymous, untagged, by-value run-time structs (depth<=5); flat and nested consumer are registered in the same App next to a recording custom-tag processor; plus static fixtures with unexported embedded types; oracle: leaf-by-leaf equality of both consumers and the expected values, sentinels of untagged / unexported / foreign-tagged leaves untouched, recorder received exactly the custom-tagged leaves with value and arguments; non-trivial = nesting depth >=2 and >=1 tagged plus >=1 frame leaf; distinct by leaf list + tree shape"
+const rule = "a flat list of leaf fields (tags from wire, func, value, prop, prefix, logger, a custom tag, a foreign tag, none; exported or unexported) and a random ordered tree that re-nests the same leaves into anonymous, untagged, by-value run-time structs (depth<=5); flat and nested consumer are registered in the same App next to a recording custom-tag processor; plus static fixtures with unexported embedded types; oracle: leaf-by-leaf equality of both consumers and the expected values, sentinels of untagged / unexported / foreign-tagged leaves untouched, recorder received exactly the custom-tagged leaves with value and arguments; non-trivial = nesting depth >=2 and >=1 tagged plus >=1 frame leaf; distinct by leaf list + tree shape; since rounds 7/8 also an extract handler answering with its own alias tag name, two scanners of ONE Go type, a scanner that learns its tag in its factory callback, and a scanner that reads the definition's properties while scanning"
 
 const pkg = "verif/harness/c11"
 
